@@ -27,6 +27,10 @@ type VerifInfo struct {
 	// Engine and Stream identify the objects the point belongs to (may be nil).
 	Engine *Engine
 	Stream *Stream
+
+	// Catalog is the currently published catalog (VerifSnapshot only); its
+	// identity changes exactly when a commit publishes.
+	Catalog *Catalog
 }
 
 type verifHookFunc func(name string, info VerifInfo)
@@ -78,6 +82,7 @@ func VerifSnapshot(e *Engine) VerifInfo {
 		TokenInUse: e.token.VerifAvailable() == 0,
 		Alive:      e.tomb.Alive(),
 		Engine:     e,
+		Catalog:    e.catalog,
 	}
 }
 
